@@ -623,3 +623,18 @@ Qed.
 
 Lemma normalize_target_normalized seen root raw : normalized (normalize_target seen root raw) = true.
 Proof. unfold normalize_target, normalized. rewrite normpath_idem. apply str_eqb_refl. Qed.
+
+(* ---------- RPC results handed back to the step ---------- *)
+Lemma rpc_back_all_translate : forallb (fun f => is_back_translate (snd f)) rpc_back_fields = true.
+Proof. reflexivity. Qed.
+
+Lemma rpc_paths_designate_same site m :
+  In (site, m) rpc_back_fields ->
+  forall cwd root here q, wf_root root = true ->
+    resolve (caller_dir root here s_dot) (back_apply m cwd (mkenv root here) q) = resolve root q.
+Proof.
+  intros Hin cwd root here q Hr.
+  pose proof rpc_back_all_translate as H. rewrite forallb_forall in H. specialize (H _ Hin). cbn in H.
+  destruct m; [|discriminate]. cbn [back_apply]. change translate_back_default_workdir with s_dot.
+  apply translate_back_designates_same. exact Hr.
+Qed.
